@@ -34,6 +34,8 @@ class Obj:
     @property
     def cls_name(self):
         c = self.cls
+        if isinstance(c, TypeRef):
+            return c.short
         return getattr(c, "name", None) or getattr(c, "short", None) or str(c)
 
     def __repr__(self):
